@@ -616,3 +616,26 @@ fn query_new_owner(deps: Deps) -> StdResult<NewOwnerResponse> {
 pub fn migrate(_deps: DepsMut, _env: Env, _msg: MigrateMsg) -> StdResult<Response> {
     Ok(Response::default())
 }
+
+/// Verification hook (add-only, compiled only with `--cfg kryptonitedao_krp_staking_contracts_verif`).
+#[cfg(kryptonitedao_krp_staking_contracts_verif)]
+#[allow(clippy::too_many_arguments)]
+pub fn verif_get_swap_info(
+    config: Config,
+    stsei_total_bonded_amount: Uint128,
+    bsei_total_bonded_amount: Uint128,
+    total_stsei_rewards_available: Uint128,
+    total_bsei_rewards_available: Uint128,
+    bsei_2_stsei_rewards_xchg_rate: Decimal,
+    stsei_2_bsei_rewards_xchg_rate: Decimal,
+) -> StdResult<(Coin, String)> {
+    get_swap_info(
+        config,
+        stsei_total_bonded_amount,
+        bsei_total_bonded_amount,
+        total_stsei_rewards_available,
+        total_bsei_rewards_available,
+        bsei_2_stsei_rewards_xchg_rate,
+        stsei_2_bsei_rewards_xchg_rate,
+    )
+}
